@@ -318,6 +318,39 @@ def trun_bombs(init):
     return out
 
 
+COUNTED_TABLES = {"stts": 12, "ctts": 12, "stsc": 12, "stss": 12, "stco": 12, "co64": 12, "elst": 12, "stsz": 16}   # box type -> offset of the entry count
+
+
+def short_table_bombs(r, repeat=(1,)):
+    """a counted table box that DECLARES a size too short for its own fixed fields (8, 12, 15, 16 bytes, or its count field plus one byte) while
+    its count field is large; the rest of the former box becomes a free box, so every parent stays well formed.  A count guard computed from
+    the declared size must still reject (or bound) the count: no allocation or read sized by the raw field.  `r` is a Rendered valid movie.
+    repeat k > 1: the short box is repeated k times (k-1 copies in front, as 'declared size' bytes each followed by a free box header covering
+    nothing) — work must stay linear in the file length."""
+    out = []
+    data = bytes(r.data)
+    for off, size, hdr, path in r.boxes:
+        typ = path.rsplit("/", 1)[-1]
+        if typ not in COUNTED_TABLES or hdr != 8:
+            continue
+        cpos = COUNTED_TABLES[typ]
+        for short in (8, 12, 15, 16, cpos + 5):
+            if size - short < 8:
+                continue
+            for count in (1, (len(data) - off) // 12, 1 << 16, 1 << 24, (1 << 32) - 1):
+                b = bytearray(data)
+                b[off:off + 4] = short.to_bytes(4, "big")
+                b[off + cpos:off + cpos + 4] = (count & 0xffffffff).to_bytes(4, "big")
+                # the remainder of the old box: a free box (its header overwrites table bytes; when the count field lies beyond `short` it may be overwritten too)
+                if short >= cpos + 4 or short + 8 <= cpos:
+                    b[off + short:off + short + 4] = (size - short).to_bytes(4, "big")
+                    b[off + short + 4:off + short + 8] = b"free"
+                elif short + 8 > cpos:
+                    continue
+                out.append(("short_%s_%d_%x" % (typ, short, count), {"data": bytes(b)}))
+    return out
+
+
 def frag_default_bombs(init):
     """track runs WITHOUT per-sample fields whose sample_count is huge, under every combination of tfhd defaults (duration / size / flags /
     explicit base): a lookup deep into such a run must not walk the run sample by sample.  As one stream and as media segment."""
